@@ -171,7 +171,7 @@ func (fc *FuncContract) usesGhost(name string) bool {
 // mentionsOwnGhost: the clause talks about ghost state private to one execution of the function (called(..)
 // flags, tracked ghosts).
 func (fc *FuncContract) mentionsOwnGhost(c *Clause) bool {
-	if strings.Contains(c.Src, "called(") {
+	if strings.Contains(c.Src, "called(") || strings.Contains(c.Src, "collected(") {
 		return true
 	}
 	for _, s := range fc.Sites {
